@@ -221,6 +221,9 @@ func genC08(seed uint64, tier Tier) *Case {
 	c.Knobs.TotalSize = 1 << 40
 	c.Knobs.FracSize = 1 << 30
 	c.Knobs.StepCostNs = 0
+	if base%8 == 5 {
+		return genC08StopAfterRotation(g, c, k)
+	}
 	sizeTriggered := g.r.Bool(0.4)
 	c.Steps = append(c.Steps, Step{Kind: "start"})
 	nb := g.r.Range(2, 6)
@@ -302,6 +305,28 @@ func genC08(seed uint64, tier Tier) *Case {
 		// one more round: ingest, seal again, restart
 		c.Steps = append(c.Steps, seqStep(g.bulk(g.bulkSize())), Step{Kind: "seal"}, Step{Kind: "stop"}, Step{Kind: "start"}, Step{Kind: "validate", Label: "second-restart"})
 	}
+	c.Battery = g.battery(3)
+	return c
+}
+
+// genC08StopAfterRotation: a graceful stop (which seals what is worth sealing) arrives while a big bulk is still
+// on its way through the index workers of a fraction that has just been rotated out. No fault is planned: the
+// store has to stop, come back and serve everything. k only varies the timing.
+func genC08StopAfterRotation(g *gen, c *Case, k int) *Case {
+	c.Profile = "c08-stop-after-rotation"
+	c.Knobs.StepCostNs = []int{100000, 300000}[g.r.Intn(2)] // indexing takes simulated time
+	c.Knobs.MaintenanceDelayMs = 20
+	c.Knobs.FracSize = 600
+	c.Knobs.SyncLatencyUs = []int{0, 200}[g.r.Intn(2)]
+	g.smallDocs = true
+	c.Steps = append(c.Steps, Step{Kind: "start"})
+	for i := 0; i < g.r.Range(0, 2); i++ {
+		c.Steps = append(c.Steps, seqStep(g.bulk(g.r.Range(1, 4))))
+	}
+	c.Steps = append(c.Steps, Step{Kind: "wait_idle"},
+		seqStep(g.bulk(g.r.Range(20, 45))),
+		Step{Kind: "sleep", Ms: int64(5 + (k*3)%70)},
+		Step{Kind: "stop"}, Step{Kind: "start"}, Step{Kind: "validate", Label: "after-restart"})
 	c.Battery = g.battery(3)
 	return c
 }
